@@ -724,6 +724,16 @@ fn canonical_json_with_fields_to_remove(
 ///   `join_authorised_via_users_server`, add the server of that user.
 ///
 /// [validating signatures on received events]: https://spec.matrix.org/latest/server-server-api/#validating-hashes-and-signatures-on-received-events
+/// Verification hook: the servers whose signatures `verify_event` demands for this event.
+#[cfg(ruma_verif)]
+#[doc(hidden)]
+pub fn verif_servers_to_check_signatures(
+    object: &CanonicalJsonObject,
+    rules: &SignaturesRules,
+) -> Result<BTreeSet<OwnedServerName>, Error> {
+    servers_to_check_signatures(object, rules)
+}
+
 fn servers_to_check_signatures(
     object: &CanonicalJsonObject,
     rules: &SignaturesRules,
